@@ -6,12 +6,13 @@
 use super::*;
 
 fn opt(score: f32, text: u8) -> SuggestOption {
+  let doc_freq: u64 = kani::any();
   let mut v = Vec::with_capacity(1);
   v.push(text);
   SuggestOption {
     text: unsafe { String::from_utf8_unchecked(v) },
     score,
-    doc_freq: 1,
+    doc_freq,
   }
 }
 
@@ -30,7 +31,7 @@ fn fin() -> f32 {
 //@ props: C22
 //@ tier: quick
 //@ funcs: api::reader::IndexReader::completion_suggest (source slice: the comparator closure passed to sort_by)
-//@ symbolic: three options with any finite non-negative score and a one-byte ASCII text
+//@ symbolic: three options with any finite non-negative score, a one-byte ASCII text and any doc_freq
 //@ bounds: 3 options, 1-letter texts
 //@ oracle: options are ordered by score descending, then text ascending; the comparator is antisymmetric and transitive (a strict weak order, so the sorted output and its truncation to `size` are deterministic)
 //@ outside: candidate collection (hash map), doc_freq, scan cap, segment independence
